@@ -12,16 +12,26 @@ Import ListNotations.
 Require Import Verif.Lib.Wire Verif.Lib.C15Prog Verif.Gen.Facts_C15.
 
 Definition view := N.
-Definition key := (N * N * N)%type.        (* request iface, context iface, view name *)
+(* a lookup: view classifier (0 = IViewClassifier, 1 = IExceptionViewClassifier), request iface,
+   context iface, view name *)
+Definition key := (N * N * N * N)%type.
 Definition cid := nat.                     (* identity of a cache dictionary *)
 Definition tid := nat.
 
 Definition slot_eqb (a b : slot) : bool :=
-  let '(a1, a2, a3, a4) := a in let '(b1, b2, b3, b4) := b in
-  N.eqb a1 b1 && N.eqb a2 b2 && N.eqb a3 b3 && N.eqb a4 b4.
+  let '(a0, a1, a2, a3, a4) := a in let '(b0, b1, b2, b3, b4) := b in
+  N.eqb a0 b0 && N.eqb a1 b1 && N.eqb a2 b2 && N.eqb a3 b3 && N.eqb a4 b4.
 Definition key_eqb (a b : key) : bool :=
-  let '(a1, a2, a3) := a in let '(b1, b2, b3) := b in
-  N.eqb a1 b1 && N.eqb a2 b2 && N.eqb a3 b3.
+  let '(a0, a1, a2, a3) := a in let '(b0, b1, b2, b3) := b in
+  N.eqb a0 b0 && N.eqb a1 b1 && N.eqb a2 b2 && N.eqb a3 b3.
+
+(* the key under which a lookup reads and writes the cache: with [KeyTriad] the classifier is not part
+   of it, so an ordinary and an exception-view lookup of the same triad share one entry *)
+Definition ckey (km : key_mode) (k : key) : key :=
+  match km with
+  | KeyFull => k
+  | KeyTriad => let '(_, rq, cx, nm) := k in (0%N, rq, cx, nm)
+  end.
 
 (* adapter registry: association list, newest first; None = unregistered *)
 Definition update := (slot * option view)%type.
@@ -139,12 +149,13 @@ Inductive label :=
 
 Section Sys.
   Variable sro : N -> list N.          (* zope.interface resolution orders: oracle input *)
+  Variable km : key_mode.              (* contents of the cache key *)
   Variable LP RP : list instr.         (* lookup / register program *)
 
   (* itertools.product(request_iface.__sro__, context_iface.__sro__) x view_types *)
   Definition slots_of (k : key) : list slot :=
-    let '(rq, cx, nm) := k in
-    flat_map (fun r => flat_map (fun c => map (fun t => (r, c, t, nm)) view_types) (sro cx)) (sro rq).
+    let '(cl, rq, cx, nm) := k in
+    flat_map (fun r => flat_map (fun c => map (fun t => (cl, r, c, t, nm)) view_types) (sro cx)) (sro rq).
 
   Definition lookup_all (Rg : reg) (k : key) : list view := lookup_over Rg (slots_of k).
 
@@ -158,7 +169,7 @@ Section Sys.
         | ReadPtr => put st i (set_tc t' (Some (cur st)))
         | Get =>
             match tc t with
-            | Some c => put st i (set_views t' (dget (heap st c) (tkey t)))
+            | Some c => put st i (set_views t' (dget (heap st c) (ckey km (tkey t))))
             | None => put st i (crash t)
             end
         | IfMiss body =>
@@ -180,7 +191,7 @@ Section Sys.
         | Write tg =>
             match tviews t, (match tg with Local => tc t | Reread => Some (cur st) end) with
             | Some vs, Some c =>
-                put (set_heap st (upd (heap st) c (dset (tkey t) vs (heap st c)))) i t'
+                put (set_heap st (upd (heap st) c (dset (ckey km (tkey t)) vs (heap st c)))) i t'
             | _, _ => put st i (crash t)
             end
         | WriteLoad tg =>
@@ -191,7 +202,7 @@ Section Sys.
         | WriteStore tg =>
             match tviews t, tsnap t, (match tg with Local => tc t | Reread => Some (cur st) end) with
             | Some vs, Some d, Some c =>
-                put (set_heap st (upd (heap st) c (dset (tkey t) vs d))) i t'
+                put (set_heap st (upd (heap st) c (dset (ckey km (tkey t)) vs d))) i t'
             | _, _, _ => put st i (crash t)
             end
         | Unlock => set_lock (put st i t') None
@@ -204,7 +215,7 @@ Section Sys.
 
   Definition new_lookup (k : key) : thread := mkThread KLookup k [] LP None None None None 0 0 false.
   Definition new_register (ups : list update) : thread :=
-    mkThread KRegister (0, 0, 0)%N ups RP None None None None 0 0 false.
+    mkThread KRegister (0, 0, 0, 0)%N ups RP None None None None 0 0 false.
 
   Definition spawn (st : state) (t : thread) : state :=
     mkState (R st) (heap st) (ncid st) (cur st) (lock st)
@@ -381,21 +392,25 @@ Definition wb_nolock_split : list instr := [WriteLoad Local; WriteStore Local]. 
 
 (* a lookup that starts when no registration is in progress and during which the registrations do
    not change returns lookup_all of the registrations in force, whatever happened before *)
-Definition fresh_claim (LP RP : list instr) : Prop :=
+Definition fresh_claim (km : key_mode) (LP RP : list instr) : Prop :=
   forall sro R0 tr1 k tr2,
-    let st1 := exec sro LP RP tr1 (init R0) in
-    let st2 := exec sro LP RP (SpawnLookup k :: tr2) st1 in
+    let st1 := exec sro km LP RP tr1 (init R0) in
+    let st2 := exec sro km LP RP (SpawnLookup k :: tr2) st1 in
     quietb st1 = true ->
-    reg_free sro LP RP st1 (SpawnLookup k :: tr2) = true ->
+    reg_free sro km LP RP st1 (SpawnLookup k :: tr2) = true ->
     exists t, threads st2 (ntid st1) = Some t /\ tkind t = KLookup /\ tkey t = k /\
               (cont t = [] -> tres t = Some (lookup_all sro (R st1) k)).
 
 (* failed lookups never grow the cache *)
-Definition misses_claim (LP RP : list instr) : Prop :=
+Definition misses_claim (km : key_mode) (LP RP : list instr) : Prop :=
   forall sro R0 tr,
-    let st := exec sro LP RP tr (init R0) in
+    let st := exec sro km LP RP tr (init R0) in
     (forall c k vs, dget (heap st c) k = Some vs -> vs <> []) /\
-    (quietb st = true -> forall k, lookup_all sro (R st) k = [] -> dget (heap st (cur st)) k = None).
+    (quietb st = true -> forall k, lookup_all sro (R st) k = [] -> dget (heap st (cur st)) (ckey km k) = None).
+
+(* every lookup of the trace is an ordinary one (IViewClassifier) *)
+Definition ordinary_only (tr : list label) : bool :=
+  forallb (fun l => match l with SpawnLookup (cl, _, _, _) => N.eqb cl 0 | _ => true end) tr.
 
 (* ---- requests: pyramid.view._call_view on top of the lookup ----
    _call_view tries the candidates returned by _find_views in order and returns the answer of the
@@ -421,13 +436,15 @@ Definition request_answer (tbl : answers) (res : option (list view)) : option (o
 (* ---- wire glue ---- *)
 Definition get_slot (v : val) : option slot :=
   match v with
-  | VL [a; b; c; d] =>
-      olet a := get_N a in olet b := get_N b in olet c := get_N c in olet d := get_N d in Some (a, b, c, d)
+  | VL [z; a; b; c; d] =>
+      olet z := get_N z in olet a := get_N a in olet b := get_N b in olet c := get_N c in olet d := get_N d in
+      Some (z, a, b, c, d)
   | _ => None
   end.
 Definition get_key (v : val) : option key :=
   match v with
-  | VL [a; b; c] => olet a := get_N a in olet b := get_N b in olet c := get_N c in Some (a, b, c)
+  | VL [z; a; b; c] =>
+      olet z := get_N z in olet a := get_N a in olet b := get_N b in olet c := get_N c in Some (z, a, b, c)
   | _ => None
   end.
 Definition get_update (v : val) : option update :=
@@ -470,7 +487,7 @@ Definition get_sro_entry (v : val) : option (N * list N) :=
   end.
 
 Definition vviews (l : list view) : val := VL (map vN l).
-Definition vkey (k : key) : val := let '(a, b, c) := k in VL [vN a; vN b; vN c].
+Definition vkey (k : key) : val := let '(z, a, b, c) := k in VL [vN z; vN a; vN b; vN c].
 
 Fixpoint range (n : nat) : list nat := match n with 0 => [] | S m => range m ++ [m] end.
 
@@ -537,9 +554,9 @@ Definition run_C15 (v : val) : val :=
         olet ops := map_opt (get_op 12) ops in
         let sro := assoc_sro tbl in
         let st0 := init (rapply r0 []) in
-        let '(st, rtr, rids) := run_ops sro lookup_prog register_prog 12 ops (st0, [], []) in
+        let '(st, rtr, rids) := run_ops sro cache_key_mode lookup_prog register_prog 12 ops (st0, [], []) in
         let tr := rev rtr in
-        let ex := expect sro lookup_prog register_prog st0 tr (fun _ => None) in
+        let ex := expect sro cache_key_mode lookup_prog register_prog st0 tr (fun _ => None) in
         let keys := dkeys (map (fun k => (k, [])) (flat_map (op_keys 12) ops)) [] in
         Some (VL [VL (map (fun i => put_thread (threads st i)) (range (ntid st)));
                   VL (map vN (rev rids));
